@@ -109,13 +109,14 @@ def _roles(fn):
                         by_name[a] = by_name[b]
                         copies[a] = by_name[b]
     r['_copies'] = copies
+    from ..loader import returned_expr
     rets = [x for x in fn.body if isinstance(x, ast.Return)]
-    if rets and isinstance(rets[-1].value, ast.Tuple) and len(
-            rets[-1].value.elts) == 2:
-        a, b = rets[-1].value.elts
+    rv = returned_expr(fn, rets[-1]) if rets else None
+    if isinstance(rv, ast.Tuple) and len(rv.elts) == 2:
+        a, b = rv.elts
         r['SCORE'], r['SENS'] = _base(a), _base(b)
-    elif rets and isinstance(rets[-1].value, ast.Name):
-        r['SCORE'] = rets[-1].value.id
+    elif isinstance(rv, ast.Name):
+        r['SCORE'] = rv.id
     return r
 
 
